@@ -282,10 +282,17 @@ func runC02(r *Run) {
 			if isRet, isC, v := retConstBool(tb.Instrs[len(tb.Instrs)-1]); !isRet || !isC || v {
 				continue
 			}
+			// the id may also arrive as an argument: requiredData(c.ID)
+			idParam := map[ssa.Value]bool{}
+			for i, a := range call.Call.Args {
+				if idLoad(stripValue(a)) && i < len(g.Params) {
+					idParam[g.Params[i]] = true
+				}
+			}
 			for id := range ids {
 				cut := map[edge]bool{}
 				for _, gb := range branchesInOne(g) {
-					if gb.Info.Op != token.EQL || gb.Info.Const == nil || !idLoad(gb.Info.Root) {
+					if gb.Info.Op != token.EQL || gb.Info.Const == nil || !(idLoad(gb.Info.Root) || idParam[stripValue(gb.Info.Root)]) {
 						continue
 					}
 					k, ok := constInt(gb.Info.Const)
@@ -593,16 +600,45 @@ func runC02(r *Run) {
 			// every search for the delimiter that ends a parameter — whatever its length — is followed by that slash search
 			// before its position is returned as the length of a non-greedy capture
 			nd := 0
-			for _, d := range callsMatching(fp, false, nameIs("strings.Index", "strings.IndexByte")) {
-				needle := d.Common.Args[1]
-				isDelim := loadOfField(needle, "routeSegment.ComparePart")
-				if ix, ok := stripValue(needle).(*ssa.Index); ok && loadOfField(ix.X, "routeSegment.ComparePart") {
-					isDelim = true
+			for _, d := range callsIn(fp, false) {
+				isDelim := false
+				switch {
+				case d.Name == "strings.Index" || d.Name == "strings.IndexByte":
+					needle := d.Common.Args[1]
+					isDelim = loadOfField(needle, "routeSegment.ComparePart")
+					if ix, ok := stripValue(needle).(*ssa.Index); ok && loadOfField(ix.X, "routeSegment.ComparePart") {
+						isDelim = true
+					}
+				case d.Common.StaticCallee() != nil && d.Common.StaticCallee().Pkg == fp.Pkg && d.Common.StaticCallee().Object() != nil && !d.Common.StaticCallee().Object().Exported() && d.Value() != nil:
+					// the search moved into a helper that is handed the delimiter and answers a position
+					if b, ok := d.Value().Type().Underlying().(*types.Basic); ok && b.Kind() == types.Int {
+						for _, a := range d.Common.Args {
+							if loadOfField(a, "routeSegment.ComparePart") {
+								isDelim = true
+							}
+						}
+					}
 				}
 				if !isDelim {
 					continue
 				}
 				nd++
+				if g := d.Common.StaticCallee(); g != nil && g.Pkg == fp.Pkg {
+					// searches gathered in the helper count as the searches they replace
+					inner := 0
+					for _, ic := range callsMatching(g, false, nameIs("strings.Index", "strings.IndexByte")) {
+						n := ic.Common.Args[1]
+						if ix, ok := stripValue(n).(*ssa.Index); ok {
+							n = ix.X
+						}
+						if valueIsField(n, "routeSegment.ComparePart") {
+							inner++
+						}
+					}
+					if inner > 1 {
+						nd += inner - 1
+					}
+				}
 				cutG := map[edge]bool{}
 				for _, br := range branchesIn(fp) {
 					if loadOfField(br.Info.Root, "routeSegment.IsGreedy") {
